@@ -95,3 +95,21 @@ Definition holds_on (c : case) : bool :=
   | CSeq _ ops outs nids => walk 0 [] [] nids ops outs
   | CConc _ _ _ _ _ _ distinct nonzero => distinct && nonzero
   end.
+
+(** well-formed for the link theorem: no explicit counter value is so large that
+    the remaining calls could reach 2^64 - 1 (the property's range) *)
+Fixpoint wf_ops (ops : list op) : bool :=
+  match ops with
+  | [] => true
+  | o :: r =>
+      (match o with
+       | SetNext n | LoadDTO _ n => n + N.of_nat (length r) <? max64
+       | _ => true
+       end) && wf_ops r
+  end.
+
+Definition wf_case (c : case) : bool :=
+  match c with
+  | CSeq _ ops _ _ => (N.of_nat (length ops) <? max64) && wf_ops ops
+  | CConc _ _ _ _ _ _ _ _ => true
+  end.
